@@ -268,7 +268,7 @@ pub fn execute(st: &mut Stats, spec: &FamilySpec, sc: &Scenario, meta: &Meta, or
             // real time: a wall-clock timeout is never a verdict
             st.count("thr_timeouts", 1);
             if st.inconclusive.len() < 5 {
-                st.inconclusive.push(format!("THR run {} hit the 30 s wall-clock limit", sc.seed));
+                st.inconclusive.push(format!("THR run {} hit the 10 s wall-clock limit", sc.seed));
             }
         }
         "stalled" => {
@@ -341,6 +341,10 @@ pub fn run_family(p: &Params, spec: &FamilySpec) -> (Stats, &'static str) {
         let c = execute(&mut st, spec, &sc, &meta, "random");
         record_coverage(&mut st, &sc, &c, spec, seed);
         if st.too_many_violations() {
+            break;
+        }
+        if thr && st.counters.get("thr_timeouts").copied().unwrap_or(0) >= 3 {
+            // real-time runs that hit the wall-clock limit cost 10 s each: stop, the tier is inconclusive for THR
             break;
         }
     }
